@@ -235,3 +235,47 @@ PROPS['C03'] = {
             + [J(s + '_assert', 'c03.cpp', 'tsanassert', [0, t // 2], scenario=s, threads=th, tiers=(T,)) for (s, th, q, t) in _C03_SCEN]
             + [J(s + '_clang', 'c03.cpp', 'ctsan', [0, t // 2], scenario=s, threads=th, tiers=(T,)) for (s, th, q, t) in _C03_SCEN],
 }
+
+PROPS['C05'] = {
+    'technique': 'per-thread event trace of scripted coroutines replayed against a reference simulation of the ready queue (online trace checker)',
+    'level_text': ('Random programs of 1-14 scripted coroutines (spawn+detach discarded/awaited, co_await child, pause, promise resolution discarded/'
+                   'awaited, future await, mutex lock/unlock discarded/awaited, queue push/pop) log BEGIN/END/FINISH of every step; the trace is '
+                   'replayed against a simulation of exactly the statement: no event of another coroutine before the running one suspends or '
+                   'finishes, next coroutine from the FRONT group of the ready queue, each ready coroutine resumed exactly once, pause re-queues '
+                   'behind everything queued, nothing ready when ordinary code regains control, is_active() false there. Orders the statement '
+                   'does not fix (awaited suspend points, completion hand-over, handles flushed by ordinary code) are accepted leniently.'),
+    'level_note': ('Trusts the reference simulation (vf/scn/scheduling.h c5_model) incl. its knowledge of which coroutine each scripted operation makes '
+                   'ready; transfers per activation are bounded (<=14 coroutines x <=12 steps). Single-threaded and exactly replayable.'),
+    'rule': ('case = one generated program (2-6 scripts of 1-12 steps, 1-3 roots entered from ordinary code, children entered from inside coroutines, '
+             'extra resolutions/pushes from ordinary code, then a stop phase); non-trivial = >=2 coroutines and >=3 context switches; distinct = '
+             'distinct (scripts, sequence of context switches).'),
+    'min_nontrivial': [500, 5000],
+    'require_classes': ['scheduling_programs:resumed_from_ready_queue', 'scheduling_programs:direct_transfers', 'scheduling_programs:programs_with_3plus_queued'],
+    'single_thread_scenarios': ('scheduling_programs',),
+    'jobs': [
+        J('prog_asan', 'c05.cpp', 'asan', [60000, 3000000], scenario='scheduling_programs', threads=1),
+        J('prog_rel', 'c05.cpp', 'rel', [100000, 6000000], scenario='scheduling_programs', threads=1),
+        J('prog_casan', 'c05.cpp', 'casan', [0, 1500000], scenario='scheduling_programs', threads=1, tiers=(T,)),
+        J('prog_crel', 'c05.cpp', 'crel', [0, 3000000], scenario='scheduling_programs', threads=1, tiers=(T,)),
+    ],
+}
+PROPS['C06'] = {
+    'technique': 'operation histories on suspend_point objects vs reference multiset; resumption counters in probe coroutines; exhaustive short sequences; ASan/LSan',
+    'level_text': ('Every handle handed to a suspend point is a probe coroutine that counts its resumptions. After every operation (construct, << handle, '
+                   '<< suspend_point, move-construct, move-assign, pop, clear, co_await, typed construct/merge, destruction) the counters and size()/'
+                   'empty() must equal the reference model, in normal mode (flush runs handles at once) and in coroutine mode (nothing may run before '
+                   'the driver suspends; everything queued runs on co_await/pause). Batch sizes are biased to 2..7,12,13,24,25,40 (inline->heap '
+                   'transition and each doubling); all sequences of length <=4 over a 13-op alphabet on 2(+1) objects are enumerated completely. '
+                   'new[]/delete[] balance and typed values are checked by ASan/LSan and the oracle.'),
+    'level_note': 'Trusts the probe counters and the reference model; single-threaded, exactly replayable.',
+    'rule': ('case = one operation sequence (random: 1-60 ops over 2-6 objects and up to 64 fresh handles; exhaustive sub-space: all sequences of '
+             'length 1-4); non-trivial = >=3 ops (>=2 in the exhaustive set); distinct = distinct (mode, op sequence).'),
+    'exhaustive_note': 'all sequences of length 1..4 over a 13-op alphabet on 2(+1) suspend points, in normal and in coroutine mode (61880 histories)',
+    'min_nontrivial': [500, 5000],
+    'single_thread_scenarios': ('suspend_point_history', 'suspend_point_exhaustive'),
+    'jobs': [
+        J('hist_asan', 'c06.cpp', 'asan', [60000, 3000000], scenario='suspend_point_exhaustive,suspend_point_history', threads=1),
+        J('hist_rel', 'c06.cpp', 'rel', [60000, 3000000], scenario='suspend_point_history', threads=1),
+        J('hist_casan', 'c06.cpp', 'casan', [0, 1500000], scenario='suspend_point_exhaustive,suspend_point_history', threads=1, tiers=(T,), args=['--maxlen', '5']),
+    ],
+}
